@@ -540,6 +540,9 @@ impl Compiler {
 
                 if self.last_instruction_is(OpCode::Pop) {
                     self.remove_last_instruction();
+                } else if !consequence.is_empty() {
+                    // the last statement of this branch left no value behind (e.g. a declaration)
+                    self.emit_opcode(OpCode::Null);
                 }
 
                 let pos_jump = self.instructions.len();
@@ -555,6 +558,8 @@ impl Compiler {
                     self.compile_block_statement(alternative)?;
                     if self.last_instruction_is(OpCode::Pop) {
                         self.remove_last_instruction();
+                    } else if !alternative.is_empty() {
+                        self.emit_opcode(OpCode::Null);
                     }
                 } else {
                     self.emit_opcode(OpCode::Null);
